@@ -32,7 +32,12 @@ class List(Expression):
         return not self.min_len or self.min_len == '0'
 
     def can_partially_succeed(self):
-        return not self.always_succeeds() and self.expr.can_partially_succeed()
+        if self.always_succeeds():
+            return False
+        # With a minimum of two or more, we can consume some elements and then
+        # fail, even when the element itself cannot partially succeed.
+        needs_many = self.min_len not in (1, '1')
+        return needs_many or self.expr.can_partially_succeed()
 
     def _compile(self, out, flags):
         if self.max_len == 0 or self.max_len == '0':
